@@ -25,7 +25,7 @@ inductive Err
 
 /-- which of the proposed repairs the modelled code contains -/
 structure Cfg where
-  /-- P8  `sorted(set(arg))` for the probes of `in` on the bisect path -/
+  /-- P8  `for v,_ in groupby(sorted(arg))`: equal probes of `in` are looked up once on the bisect path -/
   dedupIn : Bool := false
   /-- P9  `'!in'` is among the operator keys unpacked from `{op: value}` -/
   notinKey : Bool := false
@@ -35,16 +35,20 @@ structure Cfg where
   guardEmpty : Bool := false
   /-- P14 `index` drops repeated column names -/
   dedupIdx : Bool := false
-  /-- P11 `MissingType` defines `__le__` (False) and `__ge__` (True) -/
+  /-- P11 `Missing <= x` is False and `x <= Missing` is True instead of raising (`MissingType.__le__/__ge__`) -/
   missingLe : Bool := false
+  /-- P11 `Missing >= x` is True and `x >= Missing` is False instead of raising -/
+  missingGe : Bool := false
   /-- `match` on an empty column returns no rows instead of looking at `col[0]` -/
   matchEmpty : Bool := false
+  /-- `insert([{},{},…])` pads with as many rows as there are dicts (the pinned code pads one) -/
+  dictLen : Bool := false
   deriving Repr, DecidableEq
 
 def Cfg.unfixed : Cfg := {}
 def Cfg.fixed : Cfg :=
   { dedupIn := true, notinKey := true, localOp := true, guardEmpty := true, dedupIdx := true,
-    missingLe := true, matchEmpty := true }
+    missingLe := true, missingGe := true, matchEmpty := true, dictLen := true }
 
 /-- a table cell; strings are lists of code points -/
 inductive Cell
@@ -104,8 +108,8 @@ def pyLe (cfg : Cfg) (a b : Cell) : Except Err Bool :=
   else if a.key.comparable b.key then .ok (!(b.key.lt a.key)) else .error .typeError
 
 def pyGe (cfg : Cfg) (a b : Cell) : Except Err Bool :=
-  if a.key = .missing then (if cfg.missingLe then .ok true else .error .typeError)
-  else if b.key = .missing then (if cfg.missingLe then .ok false else .error .typeError)
+  if a.key = .missing then (if cfg.missingGe then .ok true else .error .typeError)
+  else if b.key = .missing then (if cfg.missingGe then .ok false else .error .typeError)
   else if a.key.comparable b.key then .ok (!(a.key.lt b.key)) else .error .typeError
 
 /-- Python `a == b` (never raises): numeric equality across int/float, `Missing == None` -/
@@ -158,10 +162,14 @@ def sortDedupNat : List Nat → List Nat
   | [] => []
   | x :: xs => insertNat x (sortDedupNat xs)
 
-/-- keep the first of every `==`-class (what `set()`/`dict.fromkeys` keep, up to which representative) -/
-def dedupCells : List Cell → List Cell
+/-- keys of `itertools.groupby(vs)`: the first of every run of `==` values -/
+def dedupAdjAux (k : Cell) : List Cell → List Cell
   | [] => []
-  | x :: xs => x :: (dedupCells xs).filter (fun y => !(pyEq x y))
+  | y :: ys => if pyEq k y then dedupAdjAux k ys else y :: dedupAdjAux y ys
+
+def dedupAdj : List Cell → List Cell
+  | [] => []
+  | x :: xs => x :: dedupAdjAux x xs
 
 def dedupNat : List Nat → List Nat
   | [] => []
@@ -367,12 +375,15 @@ def assocGet (d : List (Nat × Cell)) (k : Nat) : Cell :=
   | Option.none => .missing
 
 /-- insertion of a mapping of columns (the branch both dict shapes end in) -/
-def insertCols (t : Table) (cs : List (Nat × List Cell)) (emptyDicts : Bool) : Except Err Table := do
+def insertCols (t : Table) (cs : List (Nat × List Cell)) (padLen : Option Nat) : Except Err Table := do
   let old := t.columns
   let newKeys := dedupNat (cs.map (·.1))
   let newCols := sortNat (newKeys.filter (fun k => !(old.contains k)))
   let oldLen ← if newCols.isEmpty then pure 0 else t.len
-  let datLen := if emptyDicts then 1 else match cs with | [] => 1 | (_, v) :: _ => v.length
+  let datLen := match padLen, cs with
+    | some n, _ => n
+    | Option.none, [] => 1
+    | Option.none, (_, v) :: _ => v.length
   -- old and pad columns, in place
   let data1 := t.data.map (fun (p : Nat × List Cell) =>
     if old.contains p.1 then
@@ -388,15 +399,16 @@ def insertCols (t : Table) (cs : List (Nat × List Cell)) (emptyDicts : Bool) : 
   pure { t with data := data2, columns := old ++ newCols }
 
 /-- `Table.insert` (only on tables that own their data) -/
-def Table.insert (t : Table) (d : InsertData) : Except Err Table :=
+def Table.insert (cfg : Cfg) (t : Table) (d : InsertData) : Except Err Table :=
   match d with
   | .rows [] => .ok t
   | .dicts [] => .ok t
   | .cols [] => .ok t
   | .dicts ds =>
     let keys := dedupNat (ds.flatMap (fun d => d.map (·.1)))
-    insertCols t (keys.map (fun k => (k, ds.map (fun d => assocGet d k)))) keys.isEmpty
-  | .cols cs => insertCols t cs false
+    insertCols t (keys.map (fun k => (k, ds.map (fun d => assocGet d k))))
+      (if cfg.dictLen then some ds.length else if keys.isEmpty then some 1 else Option.none)
+  | .cols cs => insertCols t cs Option.none
   | .rows (r :: rs) =>
     if r.length ≠ t.columns.length then .error .assertionError
     else if (rs.all (fun r' => r'.length == t.columns.length)) = false then .error .other
@@ -542,12 +554,17 @@ def isNumber : Cell → Bool
 def isStr : Cell → Bool
   | .str _ => true | _ => false
 
-def enumFrom {α} (lo : Nat) (xs : List α) : List (Nat × α) := (List.range xs.length).map (lo + ·) |>.zip xs
-
-/-- rows of `enumerate(col, lo)` whose cell passes the (possibly raising) test -/
-def scanFilter (lo : Nat) (col : List Cell) (test : Cell → Except Err Bool) : Except Err (List Nat) := do
-  let bs ← col.mapM test
-  pure (((enumFrom lo col).zip bs).filterMap (fun (p : (Nat × Cell) × Bool) => if p.2 then some p.1.1 else Option.none))
+/-- `[i for i,c in enumerate(col, lo) if test(c)]` for a test that may raise -/
+def scanFilter (lo : Nat) (col : List Cell) (test : Cell → Except Err Bool) : Except Err (List Nat) :=
+  match col with
+  | [] => .ok []
+  | c :: cs =>
+    match test c with
+    | .error e => .error e
+    | .ok b =>
+      match scanFilter (lo + 1) cs test with
+      | .error e => .error e
+      | .ok rest => .ok (if b then lo :: rest else rest)
 
 /-- the regular-expression branches of `_compare` (always on the scan path) -/
 def matchScan (cfg : Cfg) (lo : Nat) (col : List Cell) (arg : Cell) : Except Err (List Nat) :=
@@ -580,7 +597,8 @@ def compareBisect (cfg : Cfg) (s : Seq) (lo hi : Nat) (op : Op) (a : ArgV) : Exc
   let br := myBisectRight cfg s
   match op, a with
   | .isin, .coll vs => do
-    let vs' ← pySorted (if cfg.dedupIn then dedupCells vs else vs)
+    let vs0 ← pySorted vs
+    let vs' := if cfg.dedupIn then dedupAdj vs0 else vs0
     vs'.mapM (fun v => do let l ← bl v lo hi; let h ← br v lo hi; pure (l, h))
   | .notin, .coll vs => do
     let vs' ← pySorted vs
@@ -763,7 +781,7 @@ def step (cfg : Cfg) (ts : List (Option Table)) (op : TOp) : List (Option Table)
   | .insert i d =>
     match target i with
     | Option.none => (ts, .skipped)
-    | some t => match t.insert d with
+    | some t => match t.insert cfg d with
       | .ok t' => (setAt ts i (some t'), observe t')
       | .error e => (setAt ts i Option.none, .err e)
   | .index i cols =>
@@ -822,13 +840,28 @@ def sat (op : Op) (a : ArgV) (c : Cell) : Except Err Bool :=
   | .ge, .scalar v => satOrd .ge c v
   | _, _ => .error .other
 
-/-- the condition a keyword stands for, as documented: its own operator if given as `{op: v}`,
-else the positional one, else `=` / `in` -/
+/-- what is asked of a cell: a comparison with a value, or a callable -/
+inductive Test
+  | cmp (op : Op) (a : ArgV) | fn (p : CellPred)
+  deriving Repr
+
+def Test.eval : Test → Cell → Except Err Bool
+  | .cmp op a, c => sat op a c
+  | .fn p, c => .ok (p.eval c)
+
+/-- one keyword condition -/
 structure Cond where
   col : Nat
-  op : Op
-  arg : ArgV
+  test : Test
   deriving Repr
+
+/-- the condition a keyword stands for, as documented: its own operator if given as `{op: v}`,
+else the positional one, else `=` for a value and `in` for a collection -/
+def condOf (comparison : Option Op) (kw : Nat × Arg) : Cond :=
+  match kw.2 with
+  | .fn p => { col := kw.1, test := .fn p }
+  | .dict op a => { col := kw.1, test := .cmp op a }
+  | .val a => { col := kw.1, test := .cmp (effOp comparison a) a }
 
 /-- a table as the specification sees it: column names and rows -/
 structure RowTable where
@@ -841,15 +874,35 @@ def cellOf (columns : List Nat) (row : List Cell) (c : Nat) : Except Err Cell :=
   | some p => .ok p.2
   | Option.none => .error .keyError
 
-/-- row satisfies at least one condition -/
-def satRow (columns : List Nat) (conds : List Cond) (row : List Cell) : Except Err Bool := do
-  let bs ← conds.mapM (fun k => do let c ← cellOf columns row k.col; sat k.op k.arg c)
-  pure (bs.any id)
+/-- does the row satisfy at least one of the conditions (every condition is evaluated) -/
+def satRow (columns : List Nat) (row : List Cell) : List Cond → Except Err Bool
+  | [] => .ok false
+  | k :: ks =>
+    match cellOf columns row k.col with
+    | .error e => .error e
+    | .ok c =>
+      match k.test.eval c with
+      | .error e => .error e
+      | .ok b =>
+        match satRow columns row ks with
+        | .error e => .error e
+        | .ok b' => .ok (b || b')
 
-/-- `whereS`: the rows, in order and with multiplicity, that satisfy one of the conditions -/
-def whereS (t : RowTable) (conds : List Cond) : Except Err (List (List Cell)) := do
-  let bs ← t.rows.mapM (satRow t.columns conds)
-  pure ((t.rows.zip bs).filterMap (fun (p : List Cell × Bool) => if p.2 then some p.1 else Option.none))
+/-- the rows, in order and with multiplicity, that pass the (possibly raising) test -/
+def filterRows (test : List Cell → Except Err Bool) : List (List Cell) → Except Err (List (List Cell))
+  | [] => .ok []
+  | r :: rs =>
+    match test r with
+    | .error e => .error e
+    | .ok b =>
+      match filterRows test rs with
+      | .error e => .error e
+      | .ok rest => .ok (if b then r :: rest else rest)
+
+/-- `whereS`: the rows, in table order and with multiplicity, that satisfy one of the conditions
+under a plain row-by-row evaluation -/
+def whereS (t : RowTable) (conds : List Cond) : Except Err (List (List Cell)) :=
+  filterRows (fun r => satRow t.columns r conds) t.rows
 
 /-- lexicographic `<` of two rows on the columns `ks` (positions in the row) -/
 def lexLt (ks : List Nat) (r s : List Cell) : Bool :=
